@@ -48,6 +48,19 @@ RATIO_FIELDS = {"nmae", "pnmae", "nmbe", "pnmbe", "cvrmse", "cvrmse_adj", "cvrms
 NONFIN = {"nan": float("nan"), "inf": float("inf"), "-inf": float("-inf")}
 
 
+POLICY = ["AsCoded"]
+
+
+def probe_policy():
+    """which of the two modelled division policies the code under test implements: the repository's
+    (`denominator <= min and numerator > 10*min -> None`) or the proposed repair (`denominator <= min -> None`).
+    Decided on the three witnesses of the _refuted theorems; anything else is left to the correspondence."""
+    obs = [run_safe_divide(Fr(-5), Fr(-1), Fr(MN), False), run_safe_divide(Fr(-5), Fr(1, 2000), Fr(MN), False),
+           run_safe_divide(Fr(1, 200), Fr(0), Fr(MN), False)]
+    POLICY[0] = "Repaired" if all(o is None for o in obs) else "AsCoded"
+    return POLICY[0], obs
+
+
 def mad_k():
     from opendsm.common import utils
     return float(utils.MAD_k)
@@ -477,13 +490,13 @@ def coq_hrows(rows):
 
 
 def bcase_term(case, fields, k_mad):
-    return ("{| bc_den := %d%%positive; bc_rows := %s; bc_p := %s; bc_mn := %s; bc_k := %s; bc_exp := %s |}" % (
-        case["den"], coq_rows(case["rows"]), zlit(case["p"]), flit(MN), flit(k_mad),
+    return ("{| bc_pl := %s; bc_den := %d%%positive; bc_rows := %s; bc_p := %s; bc_mn := %s; bc_k := %s; bc_exp := %s |}" % (
+        POLICY[0], case["den"], coq_rows(case["rows"]), zlit(case["p"]), flit(MN), flit(k_mad),
         coq_list([obsv(fields[f]) for f in FIELDS])))
 
 
 def sd_term(num, den, mn, o):
-    return "(%s, %s, %s, %s)" % (flit(num), flit(den), flit(mn), obsv(o))
+    return "(%s, %s, %s, %s, %s)" % (POLICY[0], flit(num), flit(den), flit(mn), obsv(o))
 
 
 def report_mismatch(run, stream, what_fn, term, case, obs):
@@ -545,7 +558,7 @@ def stream_safe_divide(run):
     for i in bad[:10]:
         num, den, mn, npy, o = meta[i]
         run.corr_failures.append({"stream": "safe_divide", "case": {"num": str(num), "den": str(den), "mn": str(mn), "numpy": npy},
-                                  "impl": o, "model": run.coq_eval(IMPORTS, "", "safe_divide %s %s %s" % (qlit(num), qlit(den), qlit(mn)))[-300:]})
+                                  "impl": o, "model": run.coq_eval(IMPORTS, "", "sdiv %s %s %s %s" % (POLICY[0], qlit(num), qlit(den), qlit(mn)))[-300:]})
 
 
 def gate_sig(acc, unsafe, call):
@@ -609,8 +622,8 @@ def baseline_job(case):
         hm.baseline_metrics = bm
         acc = bool(hm._model_fit_is_acceptable())
         want = true_gate(T, tcv, tpn)
-        gterm = ("{| gc_den := %d%%positive; gc_rows := %s; gc_p := %s; gc_mn := %s; gc_tcv := %s; gc_tpn := %s; "
-                 "gc_acceptable := %s |}" % (case["den"], rows_term, zlit(case["p"]), flit(MN), flit(tcv), flit(tpn), coq_bool(acc)))
+        gterm = ("{| gc_pl := %s; gc_den := %d%%positive; gc_rows := %s; gc_p := %s; gc_mn := %s; gc_tcv := %s; gc_tpn := %s; "
+                 "gc_acceptable := %s |}" % (POLICY[0], case["den"], rows_term, zlit(case["p"]), flit(MN), flit(tcv), flit(tpn), coq_bool(acc)))
         out["gates"].append({"tcv": tcv, "tpn": tpn, "acc": acc, "want": want, "unsafe": unsafe_ratios(T, fields), "term": gterm})
     return out
 
@@ -780,10 +793,10 @@ def hourly_stub_job(case):
     dq = any(w.qualified_name == "eemeter.model_fit_metrics" for w in hm.disqualification)
     fails, T = oracle_baseline(pairs, nparams, fields, k_mad)
     out.update(fields=fields, stored_p=stored_p, dq=dq, fails=fails, want_dq=not true_gate(T, tcv, tpn), unsafe=unsafe_ratios(T, fields))
-    out["term"] = ("{| hc_den := %d%%positive; hc_rows := %s; hc_frows := []; hc_p := %s; hc_mn := %s; hc_k := %s; hc_exp := %s |}" % (
-        den, coq_hrows(hrows), zlit(stored_p), flit(MN), flit(k_mad), coq_list([obsv(fields[f]) for f in FIELDS])))
-    out["gterm"] = ("{| gc_den := %d%%positive; gc_rows := %s; gc_p := %s; gc_mn := %s; gc_tcv := %s; gc_tpn := %s; gc_acceptable := %s |}" % (
-        den, coq_hrows(hrows), zlit(stored_p), flit(MN), flit(tcv), flit(tpn), coq_bool(not dq)))
+    out["term"] = ("{| hc_pl := %s; hc_den := %d%%positive; hc_rows := %s; hc_frows := []; hc_p := %s; hc_mn := %s; hc_k := %s; hc_exp := %s |}" % (
+        POLICY[0], den, coq_hrows(hrows), zlit(stored_p), flit(MN), flit(k_mad), coq_list([obsv(fields[f]) for f in FIELDS])))
+    out["gterm"] = ("{| gc_pl := %s; gc_den := %d%%positive; gc_rows := %s; gc_p := %s; gc_mn := %s; gc_tcv := %s; gc_tpn := %s; gc_acceptable := %s |}" % (
+        POLICY[0], den, coq_hrows(hrows), zlit(stored_p), flit(MN), flit(tcv), flit(tpn), coq_bool(not dq)))
     return out
 
 
@@ -1101,8 +1114,8 @@ def hourly_fit_job(args):
     dq = any(w.qualified_name == "eemeter.model_fit_metrics" for w in m.disqualification)
     frows = coq_list(["(%s, %s, %s)" % ("nan" if a is None else vlib.fhex(a), "nan" if b is None else vlib.fhex(b), coq_bool(f))
                       for a, b, f in rows])
-    term = ("{| hc_den := 1%%positive; hc_rows := []; hc_frows := %s; hc_p := %s; hc_mn := %s; hc_k := %s; hc_exp := %s |}" % (
-        frows, zlit(int(m.baseline_metrics.num_model_params)), flit(MN), flit(k_mad), coq_list([obsv(fields[f]) for f in FIELDS])))
+    term = ("{| hc_pl := %s; hc_den := 1%%positive; hc_rows := []; hc_frows := %s; hc_p := %s; hc_mn := %s; hc_k := %s; hc_exp := %s |}" % (
+        POLICY[0], frows, zlit(int(m.baseline_metrics.num_model_params)), flit(MN), flit(k_mad), coq_list([obsv(fields[f]) for f in FIELDS])))
     return {"seed": seed, "variant": variant, "ndays": ndays, "fields": fields, "nrows": len(rows), "nparams": nparams,
             "stored_p": int(m.baseline_metrics.num_model_params), "n_interpolated": int(flag.sum()), "dq": dq, "tcv": tcv, "tpn": tpn,
             "fails": fails, "want_dq": not true_gate(T, tcv, tpn), "unsafe": unsafe_ratios(T, fields), "term": term}
@@ -1257,7 +1270,10 @@ def main():
                                 "pandas / numpy semantics (isfinite filter, var(ddof=0), quantile 'linear', corr, autocorr) re-specified in Model/Metrics.v"]
     run.check_proofs("Properties/C16.v", ["Proofs/MetricsProofs.v"])
     run.ensure_models(["Model/MetricsRun.v", "Model/CasesLib.v"])
-    phase(run, "proofs checked")
+    pol, wit = probe_policy()
+    run.cov["division_policy"] = {"modelled_as": pol, "witnesses": {"_safe_divide(-5,-1)": wit[0], "_safe_divide(-5,0.0005)": wit[1],
+                                                                   "_safe_divide(0.005,0)": wit[2]}}
+    phase(run, "proofs checked; _safe_divide behaves as policy %s" % pol)
     if run.replay:
         rep = json.load(open(run.replay))
         replay(run, rep["case"])
